@@ -28,19 +28,39 @@ pub static C02: C02Prop = C02Prop;
 
 /// Which instruction (by kind) first breaks when printed and re-read on its own — keys findings by root cause.
 fn culprit(p: &Program) -> String {
-    for i in p.to_instructions() {
-        let Ok(t) = i.to_quil() else { return format!("{}:to-quil", instr::kind(&i)) };
+    /// Does `i`, printed on its own, read back as itself and print the same again?
+    fn alone(i: &Instruction) -> Result<(), String> {
+        let Ok(t) = i.to_quil() else { return Err(format!("{}:to-quil", instr::kind(i))) };
         match Program::from_str(&t) {
             Ok(q) => {
                 let l = q.to_instructions();
-                if l.len() != 1 || l[0] != i {
-                    return format!("{}:{}", instr::kind(&i), detail(&i));
+                if l.len() != 1 || &l[0] != i {
+                    return Err(format!("{}:{}", instr::kind(i), detail(i)));
                 }
                 if q.to_quil().ok().as_deref() != Some(&format!("{t}\n")) && q.to_quil().ok().as_deref() != Some(t.as_str()) {
-                    return format!("{}:second-print", instr::kind(&i));
+                    return Err(format!("{}:second-print", instr::kind(i)));
+                }
+                Ok(())
+            }
+            Err(_) => Err(format!("{}:{}", instr::kind(i), detail(i))),
+        }
+    }
+    for i in p.to_instructions() {
+        if let Err(whole) = alone(&i) {
+            // a definition that breaks because one instruction of its body does is keyed by that
+            // instruction (same root cause wherever it stands)
+            let body: &[Instruction] = match &i {
+                Instruction::CalibrationDefinition(c) => &c.instructions,
+                Instruction::MeasureCalibrationDefinition(c) => &c.instructions,
+                Instruction::CircuitDefinition(c) => &c.instructions,
+                _ => &[],
+            };
+            for b in body {
+                if let Err(inner) = alone(b) {
+                    return inner;
                 }
             }
-            Err(_) => return format!("{}:{}", instr::kind(&i), detail(&i)),
+            return whole;
         }
     }
     "whole-program".into()
@@ -49,6 +69,14 @@ fn culprit(p: &Program) -> String {
 fn detail(i: &Instruction) -> &'static str {
     match i {
         Instruction::Gate(_) | Instruction::SetFrequency(_) | Instruction::SetPhase(_) | Instruction::SetScale(_) | Instruction::ShiftFrequency(_) | Instruction::ShiftPhase(_) => "expression",
+        // `DELAY sin (2*pi)`: qubit variable `sin` and a parenthesised duration, or no qubit and the
+        // duration sin(2*pi)? (known finding c02-delay-function-named-qubit)
+        Instruction::Delay(d)
+            if d.frame_names.is_empty()
+                && matches!(d.qubits.last(), Some(quil_rs::instruction::Qubit::Variable(v)) if ["sin", "cos", "sqrt", "exp", "cis"].contains(&v.to_lowercase().as_str())) =>
+        {
+            "function-named-last-qubit"
+        }
         Instruction::Delay(_) => "delay",
         Instruction::Move(_) | Instruction::Arithmetic(_) | Instruction::Comparison(_) | Instruction::Store(_) => "operand",
         _ => "other",
@@ -97,6 +125,9 @@ impl Property for C02Prop {
     }
     fn rule(&self) -> &'static str {
         "texts from (1) 96 instruction spellings the printer never emits (radix / exponent / separator literals, i64 extremes, 1.0-style reals, redundant parentheses, nested negation, right- and left-nested - / ^, complex literals, bare memory names, upper-case pi / functions, implicit lengths, named measurements, DELAY forms, NONBLOCKING forms) and 16 definition spellings (tab-indented DEFCAL, DEFCAL with modifiers / MEASURE forms, all four DEFGATE kinds, DEFCIRCUIT, DEFFRAME, DEFWAVEFORM), 1..8 (quick) / 1..14 (thorough) per program; (2) the printed text of API-built programs of every instruction and definition kind (the C04 generator); (3) the repository's .quil corpus in groups of 6 instructions; (4) instructions of every expression-bearing kind whose expressions (depth <= 3/5, full literal zoo) are written by the harness's own printer with redundant parentheses, blanks, upper-case names, bare memory names and alternative number spellings; with probability 1/4 every quoted string of the text is replaced (1 in 2 each) by 1..4 pieces from {\\\", \\\\, letters, blank, #, ;, newline, e-acute, %, @, :, 0, -}; each restyled with probability 1/2 (comments, blank lines, trailing blanks, tab indents, ';' separators) and hit by one token / byte mutation with probability 1/4. Non-trivial = the text parses to a program with an instruction other than NOP/HALT/WAIT/FENCE/RESET; distinct by text hash."
+    }
+    fn guided(&self) -> bool {
+        false
     }
     fn max_words(&self) -> usize {
         4000
